@@ -896,6 +896,15 @@ class Engine:
         each its own obligation (then assumed); induction steps have base and step obligations"""
         hooks = dict(self.contract.get('proof') or {})
         hooks.update(self.case.get('proof') or {})
+        # definitional clauses: the MEANING of an otherwise uninterpreted hypothesis predicate (e.g. "the band-passed
+        # signal contains three full oscillations") in terms of a value that only exists at this program point; assumed,
+        # counted and listed in the evidence (never used to state a fact about the code)
+        defs = dict(self.contract.get('define') or {})
+        defs.update(self.case.get('define') or {})
+        for clause in defs.get(anchor, []):
+            t = self.spec_bool(clause, dict(self.st.env))
+            self.assume(t)
+            self.stats.setdefault('definitions', []).append('%s @%s: %s' % (self.fn_short, '-'.join(map(str, anchor)), clause[:200]))
         h = hooks.get(anchor)
         if h is None:
             return
